@@ -61,6 +61,12 @@ func (ex *Exec) eval(st *State, e ast.Expr, k func(*State, Val)) {
 					k(st2, ex.fieldPath(st2, x, sel.Index()))
 				})
 			case types.MethodExpr:
+				if fn, ok := sel.Obj().(*types.Func); ok {
+					v := ex.funcRef(fn)
+					v.GoT = ex.typeOf(e)
+					k(st, v)
+					return
+				}
 				r := ex.fresh("methodexpr", SRef)
 				st.assume(not(eq(r, "0")))
 				k(st, Val{T: r, S: SRef, GoT: ex.typeOf(e)})
@@ -200,7 +206,7 @@ func (ex *Exec) funcRef(fn *types.Func) Val {
 	name := "|fn_" + sanitize(funcKey(fn)) + "|"
 	ex.declare(fmt.Sprintf("(declare-const %s Ref)", name))
 	ex.declare(fmt.Sprintf("(assert (not (= %s 0)))", name))
-	return Val{T: name, S: SRef, GoT: fn.Type()}
+	return Val{T: name, S: SRef, GoT: fn.Type(), Fn: fn}
 }
 
 func (ex *Exec) evalIdent(st *State, id *ast.Ident) Val {
